@@ -84,8 +84,10 @@ type Result struct {
 
 // Group is a set of jobs that run in worker processes started under one configuration file.
 type Group struct {
-	Cfg  JobCfg
-	Jobs []*Job
+	Cfg    JobCfg
+	Jobs   []*Job
+	Expect string // C19: accept | reject | either ("" = the configuration is known good)
+	Kind   string
 	// ExpectStartupFailure: the configuration must be rejected (C19); no jobs are run.
 }
 
@@ -320,6 +322,10 @@ type jobOutcome struct {
 	res   *Result
 	death *jobDeath
 	err   error
+	// C19: outcome of starting a worker under the group's configuration
+	group   *Group
+	startup *startupError
+	started bool
 }
 
 // runGroups executes all groups on up to nproc worker processes.
@@ -359,8 +365,19 @@ func runGroups(bin string, groups []*Group, nproc int, race bool, limit time.Dur
 						var err error
 						w, err = startWorker(bin, g.Cfg.Text, race)
 						if err != nil {
+							if se, ok := err.(*startupError); ok && g.Expect != "" {
+								mu.Lock()
+								onResult(jobOutcome{group: g, startup: se, cfg: g.Cfg, job: job})
+								mu.Unlock()
+								break
+							}
 							fail(err)
 							return
+						}
+						if g.Expect != "" {
+							mu.Lock()
+							onResult(jobOutcome{group: g, started: true, cfg: g.Cfg, job: job})
+							mu.Unlock()
 						}
 					}
 					job.Cfg = g.Cfg
